@@ -85,6 +85,11 @@ def shape_src(s, n):
         return "return " + "true and " * n + "6"
     if s == "elseif-chain":
         return "local x = 1\nif x == 0 then return 0\n" + "elseif x == 0 then return 0\n" * n + "else return 9 end"
+    if s == "nested-fn-chains":
+        e = "T"      # the function expression sits at the deep (left) end of each chain of index suffixes
+        for _ in range(n):
+            e = "(function() return " + e + "[1]" * 5000 + " end)()"
+        return "local T = {} T[1] = T\nreturn (" + e + ") == T and 5 or 0"
     if s in REC:
         return REC[s]
     raise Infra("unknown shape " + s)
@@ -163,7 +168,7 @@ def run(prop, tier):
                 continue   # quadratic text or pointless beyond the limit
         src = shape_src(s, n)
         wrapped = "local f, e = load(%s)\nif not f then emit('compile-error') return end\nlocal r = table.pack(pcall(f))\nif r[1] then emit('ok', r[2]) else emit('runtime-error') end" % long_lua_string(src)
-        cases.append({"id": len(cases), "src": wrapped, "timeout": 60000 if n <= 100000 else 400000, "cpu": 2000000000, "mem": 3000000000})
+        cases.append({"id": len(cases), "src": wrapped, "timeout": 60000 if (n <= 100000 and s != "nested-fn-chains") else 400000, "cpu": 2000000000, "mem": 3000000000})
         meta.append(l)
         if l.get("div"):
             # a program without a value must end by an ordinary error also when no resource limit is set
